@@ -446,7 +446,8 @@ def reference(b, offset):
     return line, offset - (i + 1)
 
 
-def table(prog, maxlen):
+def table(prog, maxlen, inside=False):
+    """inside=False: every offset on a character boundary; inside=True: only offsets inside a multi-byte character"""
     install()
     key = "SemverError::location"
     names = prog.field_names("SemverError")
@@ -454,7 +455,7 @@ def table(prog, maxlen):
     for w in words(maxlen):
         text = "".join(CLASSES[c] for c in w).encode("utf-8")
         for off in range(len(text) + 1):
-            if not _is_boundary(text, off):
+            if _is_boundary(text, off) == inside:
                 continue
             f = {"input": TextV(text, 0, len(text), "str"),
                  "span": Adt("miette::SourceSpan", 0, (off, 0)),
